@@ -173,6 +173,10 @@ func genC07(o *cw) {
 		emit(gen.Call{Name: "boolean", Args: []gen.Ex{g.anyOperand()}}, "boolean")
 		emit(g.boolExpr(), "bool")
 	}
+	rareC07(o)
+	for _, e := range rarePreds() {
+		o.c("evalall", rareDoc(o, false), "/", "-", e, "", "rare-names")
+	}
 }
 
 func (g *G) aexp(depth int) gen.Ex {
@@ -323,6 +327,7 @@ func genC08(o *cw) {
 		}
 		o.c("fmt", nil, "/", "-", fmt.Sprintf("%016x", bits), "", "bin2dec")
 	}
+	rareC08(o)
 }
 
 func (r2 *G) dummy() {}
@@ -432,6 +437,7 @@ func genC09(o *cw) {
 		}
 		o.c("eval", ds[0], "/", "-", fmt.Sprintf("substring('12345', %s)", a), "", "substring-nonfinite")
 	}
+	rareC09(o)
 }
 
 // nsDocs: elements and attributes in 0..3 namespaces under varying prefixes
@@ -487,7 +493,7 @@ func nsDocs(o *cw) [][2]*dref {
 func genC14(o *cw) {
 	pairs := nsDocs(o)
 	// (a prefix bound to the EMPTY namespace URI is still namespace-qualified)
-	maps := []string{"-", "=", "=b:ns1", "=x:ns1", "=b:ns2", "=y:ns1", "=b:ns1,x:ns2,c:ns3", "=p:u1,q:u2", "=p:u2,x:u1", "=q:u3", "=b:", "=p:", "=x:,p:u1,b:"}
+	maps := []string{"-", "=", "=b:ns1", "=x:ns1", "=b:ns2", "=y:ns1", "=b:ns1,x:ns2,c:ns3", "=p:u1,q:u2", "=p:u2,x:u1", "=q:u3", "=b:", "=p:", "=x:,p:u1,b:", "=:ns1", "=:u1,p:u2", "=:"}
 	names := []string{"book", "b:book", "c:book", "x:book", "d:book", "y:book", "*", "b:*", "x:*", "other", "b:other", "a", "b", "p:a", "q:a", "x:b", "p:b", "p:*"}
 	attrs := []string{"id", "b:id", "x:id", "*", "x", "p:x", "q:y", "x:x"}
 	rot := 0
@@ -546,6 +552,19 @@ func genC14(o *cw) {
 				o.c("sel", d, "/", "-", "//*["+f+"()='ns1']", "", f+"-pred")
 				o.c("sel", d, "/", "-", "//*["+f+"()='b:book']", "", f+"-pred")
 			}
+		}
+	}
+	for _, hasNS := range []bool{false, true} {
+		rd := rareDoc(o, hasNS)
+		for _, e := range rarePaths() {
+			o.c("sel", rd, "/", "-", e, "", "rare-names")
+		}
+		for _, n := range rareElemNames {
+			for _, f := range []string{"name", "local-name", "namespace-uri"} {
+				o.c("eval", rd, "/", "-", f+"(//"+n+")", "", "rare-names-fn")
+			}
+			o.c("sel", rd, "/", "=p:u1", "//p:"+n, "", "rare-names")
+			o.c("eval", rd, "/", "-", "count(//"+n+") + count(//*[name() = '"+n+"'])", "", "rare-names-fn")
 		}
 	}
 }
@@ -637,6 +656,24 @@ func genC15(o *cw) {
 			emit("//*[(@x "+op+" "+b+") = 0]", "arith-edge-pred")
 			emit("//*[(count(*) "+op+" "+b+") >= 0]", "arith-edge-pred")
 			emit("//*[position() "+op+" "+b+" = 0]", "arith-edge-pred")
+		}
+	}
+	for _, tm := range []string{"\\", "x\\", "\\\\", "$", "x$", "$$", "\\$", "$\\", "${", "${1", "$1\\", "a\\b\\", "\\1", "$100000000000000000000", "$18446744073709551616x"} {
+		for _, f := range []string{"replace('abc', 'b', '%s')", "replace('abc', '(b)', '%s')", "replace(., 'a', '%s')", "replace('', '', '%s')", "string-length(replace('abab', 'a(b)', '%s'))"} {
+			emit(strings.ReplaceAll(f, "%s", tm), "replace-template-tail")
+		}
+	}
+	ed := edgeDoc(o)
+	for _, e := range []string{"replace('C:x', 'x', //d/@dir)", "replace(//d, 'x', //d/@t)", "replace('aXb', 'X', string(//d/@dir))", "//d[replace(., 'x', @t) = 'q']", "replace(//d/@dir, '\\\\', '/')"} {
+		o.c("selall", ed, "/", "-", e, "", "replace-template-tail")
+		o.c("evalall", ed, "/", "-", e, "", "replace-template-tail")
+	}
+	for _, dd := range []*dref{deepDoc(o, 40, "y(@x=1)"), deepDoc(o, 17, "y"), deepDoc(o, 16, "y"), deepDoc(o, 300, "y")} {
+		for _, e := range []string{"descendant::*[true()]", "descendant::y[true()]", "descendant-or-self::x[y]", "count(descendant::*[1])", "descendant::x[position() = 1]", "descendant::*[last()]", "//x[descendant::y[1]]",
+			"descendant::x[descendant::y]", "count(descendant::*[. = ''])", "descendant-or-self::*[not(*)]", "/descendant::y[1]/ancestor::x[1]", "descendant::*[@x]"} {
+			o.c("sel", dd, "/", "-", e, "", "deep-descendant-pred")
+			o.c("eval", dd, "/", "-", e, "", "deep-descendant-pred")
+			o.c("sel", dd, "/0", "-", e, "", "deep-descendant-pred")
 		}
 	}
 	for i := 0; i < 2500*o.tier; i++ {
@@ -789,6 +826,10 @@ func damages(s string) [][2]string {
 			if s[k:k+len(pat)] == pat && (k == 0 || !isName(s[k-1])) && !inQuote(s[:k]) {
 				note("unknown-axis", s[:k]+"q"+s[k:])
 				note("unknown-axis", s[:k+len(ax)]+"s"+s[k+len(ax):])
+				note("prefixed-axis", s[:k]+"p:"+s[k:])
+				if !strings.HasSuffix(ax, "-or-self") && ax != "ancestor" && ax != "descendant" {
+					note("unknown-axis", s[:k+len(ax)]+"-or-self"+s[k+len(ax):])
+				}
 			}
 		}
 	}
@@ -813,6 +854,7 @@ var c17Corpus = []string{
 	"//r[count((a | b)[c]) = 2]", "concat(name((//a)[1]), '-', 'z')", "(a)[1][2]", "(a/b)[c][d]/e[f]", "id((a)[1])",
 	"not((a)[b = (3)])", "a[b[c[(d)[1]]]]", "string-length(normalize-space(string((a)[1])))", "(a)[(b)[(c)[1]]]",
 	"/a/b", "/a/b/c[1]/d", "/a/b//c", "@a | /r/s/t", "a[/b/c]", "count(/a/b)", "/html/body/div[1]/p", "concat(/a/b, /c/d)", "a[/b/c = /d/e]", "(/a/b)[1]", "/a/@b",
+	"child::a/parent::b", "a/following-sibling::*[1]", "//a[preceding::b]", "attribute::id", "self::a/child::b", "following::a | preceding-sibling::b",
 	"a | (b)[1]", "(a | b | c)[last()]", "count((a)[1] | (b)[2])", "translate(('a'), ('b'), ('c'))", "a[. = (1) or . = ('x')]",
 }
 
@@ -1016,6 +1058,24 @@ func genC10(o *cw) {
 			o.c("parse", nil, "/", "-", pr[1], gp, "abbrev-tree")
 		}
 	}
+	for _, e := range rareSpellings {
+		o.c("parse", nil, "/", "-", e, "", "rare-spellings")
+		o.c("parse", nil, "/", "=p:u1,x:u2", e, "", "rare-spellings")
+	}
+	for _, e := range append(rarePaths(), rarePreds()...) {
+		o.c("parse", nil, "/", "-", e, "", "rare-names")
+	}
+	rd := rareDoc(o, false)
+	for _, e := range rarePreds() {
+		o.c("evalall", rd, "/", "-", e, "", "rare-names")
+	}
+	for _, n := range []string{".14159265358979323846", "0.14159265358979323846", ".1234567890123456789", ".10000000000000000000000001", ".99999999999999999999", ".5", ".25", "0.1", ".1", "123456789012345678901234567890.5",
+		".000000000000000000000000000001", "1." + strings.Repeat("0", 40) + "1", "." + strings.Repeat("3", 30), "5.", "005.500"} {
+		o.c("parse", nil, "/", "-", n, "", "long-number-literal")
+		o.c("eval", rd, "/", "-", n, "", "long-number-literal")
+		o.c("eval", rd, "/", "-", n+" = 0"+strings.TrimLeft(n, "0"), "", "long-number-literal")
+		o.c("eval", rd, "/", "-", "1 + "+n, "", "long-number-literal")
+	}
 }
 
 // ---- C06 ----
@@ -1061,6 +1121,22 @@ func genC06(o *cw) {
 		o.c("compile", nil, "/", "-", s, "", "unicode")
 	}
 	o.c("compile", nil, "/", "-", "", "", "empty")
+	// long runs of one byte (continuation bytes without a lead byte, lead bytes without continuation, NUL)
+	for _, s := range byteRuns() {
+		o.c("compile", nil, "/", "-", s, "", "byte-runs")
+	}
+	for _, s := range rareSpellings {
+		o.c("compile", nil, "/", maps[o.r.Intn(len(maps))], s, "", "rare-spellings")
+	}
+	for _, e := range append(rarePaths(), rarePreds()...) {
+		o.c("compile", nil, "/", "-", e, "", "rare-names")
+	}
+	for _, n := range []int{1, 10, 250, 1100, 5000} {
+		ns := nestings(n)
+		for _, kind := range []string{"unknownfn-plus", "unknownfn-union", "unknownfn-filter", "badarity-plus", "wide-deep", "preds-deep"} {
+			o.c("compile", nil, "/", "-", ns[kind], "", "nest-"+kind)
+		}
+	}
 	// nesting of every recursive construct around the engine's limits (in-process)
 	for _, n := range []int{1, 2, 50, 99, 100, 101, 150, 198, 199, 200, 201, 202, 250} {
 		for kind, s := range nestings(n) {
@@ -1110,6 +1186,14 @@ func nestings(n int) map[string]string {
 		"dslashstar": "a" + rep("//*", n),
 		"dslashpred": rep("//a[1]", n),
 		"mixedpath":  rep("a//b/", n) + "c",
+		// a rejected call (unknown name) whose argument is a long flat chain: rejecting must not walk the chain recursively
+		"unknownfn-plus":   "zz(" + rep("1+", n) + "1)",
+		"unknownfn-union":  "zz(" + rep("a|", n) + "a)",
+		"unknownfn-filter": "zz(a" + rep("[1]", n) + ")",
+		"badarity-plus":    "substring(" + rep("1+", n) + "1)",
+		// n closed siblings, then nesting well past the parser's limit: must still be rejected
+		"wide-deep": "concat(" + rep("1,", n) + rep("(", 400) + "1" + rep(")", 400) + ")",
+		"preds-deep": "a" + rep("[1]", n) + "[" + rep("(", 400) + "1" + rep(")", 400) + "]",
 	}
 }
 
@@ -1117,6 +1201,26 @@ func nestings(n int) map[string]string {
 
 func genC04(o *cw) {
 	g := &G{r: o.r, predAxes: allAxes}
+	// per-node argument values through ONE compiled expression (a cache inside a function closure
+	// must be keyed unambiguously): translate(., @f, @t) over pairs whose concatenations coincide
+	ed := edgeDoc(o)
+	var ts []doc.Ref
+	for _, r := range ed.all {
+		if r.Attr < 0 && r.N.Name == "t" {
+			ts = append(ts, r)
+		}
+	}
+	for _, e := range []string{"translate(., @f, @t)", "self::*[translate(., @f, @t) != .]", "concat(translate(., @f, @t), '|', translate('a/b.c', @f, @t))"} {
+		for _, first := range ts {
+			for _, then := range ts {
+				if first != then {
+					for _, final := range []string{"sel", "eval"} {
+						o.c("hist", ed, then.Addr(), "-", e, "", "hist-translate-pairs", final, fmt.Sprintf("E:%s:%s:0,S:%s:%s:1", ed.id, first.Addr(), ed.id, first.Addr()))
+					}
+				}
+			}
+		}
+	}
 	ds := append(handDocs(o, false)[4:], valueDocs(o)[:3]...)
 	ds = append(ds, ctxDocs(o)...)
 	ds = append(ds, fanDocs(o)[:3]...)
@@ -1145,7 +1249,7 @@ func genC04(o *cw) {
 		default:
 			e = gen.Call{Name: "reverse", Args: []gen.Ex{g.relPath(allAxes, 1, 2, 30)}}
 		}
-		if i%9 == 0 {
+		if i%5 == 0 {
 			// a filter over a filter with last(): the only query with state that Evaluate does not rewind
 			inner := gen.Path{Abs: true, Steps: []gen.Step{{Axis: "child", Test: g.test("child"), DSlash: true, Preds: []gen.Ex{(&G{r: g.r, predAxes: flatAxes}).boolPred(1)}}}}
 			var f gen.Ex = gen.Filter{E: gen.Paren{E: inner}, Preds: []gen.Ex{gen.Call{Name: "last"}}}
@@ -1153,11 +1257,19 @@ func genC04(o *cw) {
 				inner.Steps[0].Preds = append(inner.Steps[0].Preds, gen.Call{Name: "last"})
 				f = inner
 			}
-			switch o.r.Intn(3) {
+			switch o.r.Intn(7) {
 			case 0:
 				e = gen.Call{Name: "string", Args: []gen.Ex{f}}
 			case 1:
 				e = gen.Call{Name: "count", Args: []gen.Ex{f}}
+			case 2:
+				// as a DIRECT operand of a comparison / arithmetic / and-or (a scalar result: a working
+				// copy kept by Evaluate across calls would keep the cached count)
+				e = gen.Bin{Op: g.r.Pick([]string{"=", "!=", "<", ">="}), L: f, R: gen.Lit{S: g.r.Pick([]string{"", "1", "u", "7"})}}
+			case 3:
+				e = gen.Bin{Op: g.r.Pick([]string{"+", "*", "-"}), L: f, R: num(1 + g.r.Intn(3))}
+			case 4:
+				e = gen.Bin{Op: g.r.Pick([]string{"and", "or"}), L: gen.Bin{Op: ">", L: f, R: num(0)}, R: gen.Call{Name: "true"}}
 			default:
 				e = f
 			}
